@@ -246,41 +246,60 @@ class Tensor:
         return f"{self.__class__.__name__}({self.array.tolist()})"
 
     def _get_index_mapping(self, index: TensorIndex) -> list[int | None]:
-        normalized_index = normalize_index(index, self.shape)  # type: ignore[no-untyped-call]
-        advanced_indices = []
-        index_mapping: list[int | None] = list(range(self.rank))
-        i = 0
-        for ind in normalized_index:
-            # axis with integer index will be removed
-            if isinstance(ind, int):
-                index_mapping.pop(i)
-                continue
+        if not isinstance(index, tuple):
+            index = (index,)
 
+        # a boolean mask is equivalent to one integer index array per masked axis
+        expanded: list[Any] = []
+        for ind in index:
+            if isinstance(ind, (np.ndarray, list)) and np.asarray(ind).dtype == bool:
+                expanded.extend(np.nonzero(ind))
+            else:
+                expanded.append(ind)
+
+        # integers are broadcast against index arrays, i.e. they are advanced indices if there are any arrays
+        has_arrays = any(isinstance(ind, (np.ndarray, list)) for ind in expanded)
+
+        def is_advanced(ind: Any) -> bool:
+            return isinstance(ind, (np.ndarray, list)) or (has_arrays and isinstance(ind, (int, np.integer)))
+
+        # advanced indices separated by a slice, None or Ellipsis (even an empty one) are not adjacent
+        positions = [i for i, ind in enumerate(expanded) if is_advanced(ind)]
+        adjacent = positions == list(range(positions[0], positions[-1] + 1)) if positions else True
+
+        normalized_index = normalize_index(tuple(expanded), self.shape)  # type: ignore[no-untyped-call]
+        advanced_indices = [i for i, ind in enumerate(normalized_index) if is_advanced(ind)]
+
+        index_mapping: list[int | None] = []
+        advanced_position = 0
+        axis = 0
+        for i, ind in enumerate(normalized_index):
             # new axis inserted by None index
             if ind is None:
-                index_mapping.insert(i, None)
+                index_mapping.append(None)
+                continue
 
-            # advanced indexing
-            elif isinstance(ind, np.ndarray):
-                advanced_indices.append(i)
+            if len(advanced_indices) > 0 and i == advanced_indices[0]:
+                advanced_position = len(index_mapping)
 
-            i += 1
+            # axes with integer or advanced index are removed
+            if isinstance(ind, slice):
+                index_mapping.append(axis)
+
+            axis += 1
 
         if len(advanced_indices) == 0:
             return index_mapping
 
         b = np.broadcast(*[normalized_index[i] for i in advanced_indices])
-        a0, a1 = advanced_indices[0], advanced_indices[-1]
+        new_indices: list[int | None] = [None] * b.ndim
 
-        if advanced_indices != list(range(a0, a1 + 1)):
-            # create advanced indices in front
-            for i in advanced_indices:
-                index_mapping.remove(i)
-            new_indices: list[int | None] = [None] * b.ndim
+        if not adjacent:
+            # the broadcast axes come first
             return new_indices + index_mapping
-        else:
-            # replace indices with broadcast shape
-            return index_mapping[:a0] + [None] * b.ndim + index_mapping[a1 + 1 :]
+
+        # replace the advanced indices with the broadcast axes
+        return index_mapping[:advanced_position] + new_indices + index_mapping[advanced_position:]
 
     def __getitem__(self, index: TensorIndex) -> Tensor | np.generic:
         result = self.array[index]
